@@ -3,8 +3,8 @@
    ShortestPaths (costs, seeds, look-ahead, decay, thresholds, undo) is just a choice of the next
    op, so statements over all op sequences cover all settings. *)
 From Coq Require Import List Arith Bool Lia.
-From QV Require Import C09.Trace C09.ModelRouter C09.ModelBlocks C09.ProofsRouter C09.ProofsSem
-                       C09.ProofsGuards C09.ProofsBlocks.
+From QV Require Import C09.Trace C09.ModelRouter C09.ModelBlocks C09.ModelStar C09.ProofsRouter C09.ProofsSem
+                       C09.ProofsGuards C09.ProofsBlocks C09.ProofsStar.
 Import ListNotations.
 
 (* 1. the two maps stay mutually inverse bijections of 0..n-1 (the final layout is a bijection),
@@ -107,6 +107,40 @@ Theorem reorder_check_sound : forall c c',
   reorder_ok c c' = true -> teq Dgate c c'.
 Proof. exact reorder_ok_sound. Qed.
 Print Assumptions reorder_check_sound.
+
+(* 8. StarConnectivityRouter (deterministic model): on a star graph its run is a guarded run of the
+      transition system, hence every two-qubit gate is on an edge, the layout is a bijection and
+      the output is P_layout . input *)
+Theorem star_router_ok : forall n mid G queue o l,
+  star_graph n mid G ->
+  (forall g q, In g queue -> In q (gqs g) -> q < n) ->
+  (forall g, In g queue -> nodupb (gqs g) = true) ->
+  star_route n mid queue = Some (o, l) ->
+  forallb (gate_on_edge G) o = true /\
+  (exists p, wf_maps n l p) /\
+  forall (I : interp n) x, ieq n I (irun I o x) (ipact n I (at_ l) (irun I queue x)).
+Proof.
+  intros n mid G queue o l SG Hq Hn H.
+  destruct (star_router_refines n mid G queue o l SG Hq Hn H) as (ops & s & _ & R & Eo & El & Er).
+  pose proof (gate_items_wf n queue Hq Hn) as WI.
+  split; [|split].
+  - rewrite <- Eo. eapply route_edges; eauto.
+  - exists (p2l s). rewrite <- El. eapply route_maps_bijective; eauto.
+  - intros I x.
+    pose proof (routing_sem_interp n I G (gate_items queue) [] ops s WI (fun g q F => match F with end) R Er x) as S.
+    unfold append_final in S. cbn [map] in S. rewrite !app_nil_r in S.
+    rewrite gate_items_from, flat_items_from in S. unfold final_layout in S.
+    rewrite Eo, El in S. exact S.
+Qed.
+Print Assumptions star_router_ok.
+
+Example star_example :
+  star_route 5 0 [mkG KU 1 [1;2]] = Some ([mkG KU 0 [1;0]; mkG KU 1 [0;2]], [1;0;2;3;4]) /\
+  star_graph 5 0 [(0,1);(0,2);(0,3);(0,4)].
+Proof.
+  split; [reflexivity|]. split; [lia|].
+  intros p Hp Np. destruct p as [|[|[|[|[|p]]]]]; try reflexivity; try lia.
+Qed.
 
 (* ---- non-vacuity *)
 (* a guarded run that needs a SWAP: line 0-1-2, one block CZ(0,2) *)
